@@ -38,7 +38,7 @@ type doc struct {
 }
 
 var firsts = []string{"", "x", "x y "}
-var conts = []string{"  x", "\tz", " .", " x "}
+var conts = []string{"  x", "\tz", " .", " x ", " #x"}
 
 func (d doc) lines() []string {
 	var ls []string
@@ -434,8 +434,8 @@ func main() {
 	debug.SetGCPercent(400)
 
 	abc, ab := []string{"A", "B", "C"}, []string{"A", "B"}
-	full := bodies(firsts, conts, 2)                             // 63 field bodies
-	one := bodies(firsts, conts, 1)                              // 15
+	full := bodies(firsts, conts, 2)                             // 93 field bodies
+	one := bodies(firsts, conts, 1)                              // 18
 	small := bodies([]string{"", "x"}, []string{" .", "  x"}, 1) // 6
 
 	var jobs []job
